@@ -216,6 +216,18 @@ def run(ck):
                     if e.kind == "ext-call" and isinstance(e.detail, tuple):
                         seq.append(e.detail[1])
                 want = ["cb%d.%s" % (i, ev) for i in range(3)]
+                # a list that leaves out callbacks it found to merely inherit the empty hook of the base class skips nothing that
+                # could be observed: on a path that decided such an identity test of a callback's hook, the callbacks notified must
+                # still come in list order, each at most once (which ones were taken for inheriting is the path's assumption)
+                hook_tests = [c for c in p.conds if len(c) > 3 and isinstance(c[3], VUnknown) and c[3].tag == "is" and getattr(c[3], "operands", None) is not None
+                              and any(isinstance(o_, VFunc) and getattr(o_.func, "cls", None) is base for o_ in c[3].operands)]
+                if hook_tests and seq != want:
+                    it_ = iter(want)
+                    in_order = all(any(x == y for y in it_) for x in seq)
+                    ck.check(True if in_order else False, "C12.R4", inst + ":order (callbacks that inherit the empty hook left out)", m.site(), "dispatch calls %s are not in list order" % (seq,))
+                    recs = [u for u in _opaque_calls(p)]
+                    ck.check(all(a[len(a) - len(args):] == args for tag, a in recs), "C12.R4", inst + ":arguments", m.site(), "arguments are not forwarded unchanged to every callback")
+                    continue
                 ck.check(seq == want, "C12.R4", inst + ":order", m.site(), "dispatch calls %s; expected %s" % (seq, want))
                 # argument forwarding from the call records
                 fw = [c for c in p.interp.effects if c.kind == "ext-call"]
@@ -276,6 +288,39 @@ def run(ck):
                 ck.check(okc, "C12.R4", "LambdaCallback.%s of the %s callback calls its own function" % (ev, who), lam.module.relpath + ":LambdaCallback.__init__",
                          "%s of the %s of two LambdaCallbacks calls %s; expected %s (the functions of one callback must not be visible to another)" % (ev, who, [t_ for t_, _ in user], [t_ for t_, _ in want]),
                          key="C12.R4|LambdaCallback|%s %s" % (who, ev))
+    # ... and through a CallbackList: a callback whose hooks are installed per instance (LambdaCallback) receives every event the
+    # list emits, the per-batch ones included, with the event's arguments
+    with ck.guard("C12.R4", "CallbackList/LambdaCallback"):
+        def th4(it):
+            fns = {}
+            for ev in P.EVENTS:
+                f = VUnknown("h_%s" % ev, "unknown")
+                f.callable = True
+                f.not_none = True
+                fns[ev] = f
+            cb = it.instantiate(lam, [], dict(fns), None)
+            lst = it.instantiate(cbl, [it.new_list([cb])], {}, None)
+            st = VUnknown("nn_state", "unknown")
+            rec = {}
+            for ev in P.EVENTS:
+                a = [st, VNum("int", T.sym("epoch"), pos=True), VNum("int", T.sym("batch"), nonneg=True)][:NARGS[ev]]
+                n0 = len(getattr(it, "opaque_log", []))
+                call(it, lst, ev, *a)
+                rec[ev] = ([u for u in getattr(it, "opaque_log", [])[n0:]], a)
+            return rec
+
+        for p in [q for q in paths_of(prog, th4, max_paths=60, sticky=True) if q.outcome == "return"]:
+            # (a path that took the caller's function for the base class's own empty hook assumes something that cannot be: the
+            # function is the caller's object)
+            if any(len(c) > 3 and isinstance(c[3], VUnknown) and c[3].tag == "is" and getattr(c[3], "operands", None) is not None
+                   and any(isinstance(o_, VFunc) and getattr(o_.func, "cls", None) is base for o_ in c[3].operands)
+                   and c[2] is (not getattr(c[3], "negated", False)) for c in p.conds):
+                continue
+            for ev, (calls_, a) in p.value.items():
+                user = [str(u[0]) for u in calls_ if str(u[0]).startswith("h_")]
+                ck.check(user == ["h_" + ev], "C12.R4", "CallbackList.%s reaches the function of a LambdaCallback in the list" % ev, cbl.module.relpath + ":CallbackList",
+                         "a CallbackList holding one LambdaCallback calls %s for %s; expected its function for that event exactly once (hooks installed per instance are hooks too)" % (user, ev),
+                         key="C12.R4|CallbackList|lambda %s" % ev)
     with ck.guard("C12.R4", "LambdaCallback/validation"):
         paths = paths_of(prog, th2, max_paths=200)
         rets = [p for p in paths if p.outcome == "return"]
